@@ -140,6 +140,43 @@ def build_driver(ctx, race=False):
     return out
 
 
+class LibraryCrash(Exception):
+    """The driver process died with a Go panic / fatal error whose innermost non-runtime frame is library code:
+    the real code crashed under the stimulus. bin/check reports it as a violation (<ID>_NoCrash)."""
+
+    def __init__(self, func, head, dump, args):
+        Exception.__init__(self, "%s in %s" % (head, func))
+        self.func, self.head, self.dump, self.args_ = func, head, dump, args
+
+
+_LIB = "github.com/plgd-dev/go-coap/v3"
+
+
+def library_crash(stderr):
+    """(function, headline) if stderr is a Go crash dump whose innermost non-runtime frame is in the library."""
+    m = re.search(r"^(panic: .*|fatal error: .*)$", stderr, re.M)
+    if not m:
+        return None
+    lines = stderr[m.start():].splitlines()
+    seen_goroutine = False
+    for ln in lines:
+        if ln.startswith("goroutine "):
+            if seen_goroutine:
+                break
+            seen_goroutine = True
+            continue
+        if not seen_goroutine or ln.startswith(("\t", " ")) or not ln.strip():
+            continue
+        fn = ln.rsplit("(", 1)[0].strip()
+        if fn.startswith(("runtime.", "sync.", "sync/", "internal/", "panic", "created by", "reflect.", "testing.")):
+            continue
+        if fn.startswith(_LIB):
+            return fn, m.group(1)[:200]
+        # generic instantiations called through the driver keep the driver's package in their name: look at the file
+        return (fn, m.group(1)[:200]) if _LIB in ln else None
+    return None
+
+
 def drv(ctx, args, timeout=600, env_extra=None, race=False, ok_codes=(0,)):
     exe = ctx.drv_race if race else ctx.drv
     env = dict(os.environ)
@@ -148,6 +185,10 @@ def drv(ctx, args, timeout=600, env_extra=None, race=False, ok_codes=(0,)):
     if env_extra:
         env.update(env_extra)
     rc, so, se = run([exe] + args, cwd=ctx.work, env=env, timeout=timeout)
+    if rc not in ok_codes and rc == 2:
+        lc = library_crash(se)
+        if lc:
+            raise LibraryCrash(lc[0], lc[1], se[-12000:], args)
     if rc not in ok_codes:
         raise Machinery("driver %s failed rc=%s\nstdout:%s\nstderr:%s" % (args, rc, so[-3000:], se[-6000:]))
     return rc, so, se
